@@ -388,6 +388,46 @@ func run(c *harness.Ctx, i int) {
 		} else if !ddVerify(c, dir, store, uncompressed, "store written by desync chop (default build)") {
 			return
 		}
+		if rng.Intn(3) == 0 {
+			// a chunk server over that store that keeps a local cache (serving compressed or, with -u, uncompressed
+			// chunks; the cache directory configured for either format): after every chunk went through it once the
+			// cache directory is a store of its configured format like any other
+			serveU, cacheU := rng.Intn(2) == 0, rng.Intn(2) == 0
+			cache := filepath.Join(dir, "server-cache")
+			os.MkdirAll(cache, 0755)
+			scfg := cfgFor(dir, map[string]bool{store: uncompressed, cache: cacheU})
+			addr, scmd, serr := dsu.StartServerCmd(func(addr string) *exec.Cmd {
+				a := []string{"--config", scfg, "chunk-server", "-s", store, "-c", cache, "-l", addr}
+				if serveU {
+					a = append(a, "-u")
+				}
+				cmd := exec.Command(bin, a...)
+				cmd.Env = append(os.Environ(), "HOME="+dir)
+				return cmd
+			})
+			if serr == nil {
+				u, _ := url.Parse("http://" + addr + "/")
+				rs, rerr := desync.NewRemoteHTTPStore(u, desync.StoreOptions{Uncompressed: serveU, ErrorRetry: 1, ErrorRetryBaseInterval: time.Millisecond})
+				dsu.Must(rerr)
+				for _, id := range order {
+					ch, gerr := rs.GetChunk(id)
+					var b []byte
+					if gerr == nil {
+						b, gerr = ch.Data()
+					}
+					if gerr != nil || !bytes.Equal(b, want[id]) {
+						dsu.StopServerCmd(scmd)
+						c.Violation("chunk-server-with-cache", "chunk server (-u=%v) over a store with uncompressed=%v and a cache with uncompressed=%v did not deliver chunk %x: %v", serveU, uncompressed, cacheU, id[:4], gerr)
+						return
+					}
+				}
+				dsu.StopServerCmd(scmd)
+				if !checkStore(c, fmt.Sprintf("cache directory of a chunk server (-u=%v, cache configured uncompressed=%v)", serveU, cacheU), cache, cacheU, want) {
+					return
+				}
+				c.Count("chunk_server_caches_checked", 1)
+			}
+		}
 		c.NonTrivial("%s|u%v|%s", leg, uncompressed, class)
 	case "mixed":
 		mixed(c, dir, store, uncompressed, want, order)
